@@ -14,12 +14,12 @@ import (
 
 // C12 — SplitRawStatements partitions the input at top-level semicolons and nothing else.
 
-const splitAlphabet = ";a'\"`\n -/*#\\"
+const splitAlphabet = ";ar'\"`\n -/*#\\"
 
 func init() {
 	harness.Register(&harness.Property{
 		ID: "C12", Run: runC12, Oracle: oracleC12, Minimize: true,
-		Rule: "cases: every string of length <=5 (quick) / <=6 (thorough) over the 12-symbol alphabet " + fmt.Sprintf("%q", splitAlphabet) +
+		Rule: "cases: every string of length <=5 (quick) / <=6 (thorough) over the 13-symbol alphabet " + fmt.Sprintf("%q", splitAlphabet) +
 			"; random lists of corpus/generated statements and lexical fragments joined by ';' with arbitrary whitespace and comments of all four kinds around the separators, " +
 			"literals and comments containing ';', '--', '/*' and quotes; token soups. Oracle: the reference lexer decides accept/reject and where the top-level ';' tokens are. " +
 			"Non-trivial = >=1 top-level ';' together with >=1 ';' inside a literal or comment, or a rejected input; distinct by input hash.",
